@@ -6,9 +6,9 @@
     [bytes.TrimSpace] is modelled on ASCII input only (bytes < 128: the six
     ASCII space characters); the [bufio.Scanner] with the custom split
     function of [NewIndex] is the line tokeniser [lines] (terminators kept, a
-    last unterminated line is a token; lines are assumed shorter than
-    bufio.MaxScanTokenSize); [encoding/csv] is replaced by a plain LF / TAB
-    split (valid for fields without quote, TAB, CR, LF); the Go map [Index]
+    last unterminated line is a token; the Scanner's limit of
+    bufio.MaxScanTokenSize bytes per token is [scan_tokens]); ReadFrom splits
+    lines at LF and fields at TAB without quoting rules; the Go map [Index]
     is an association list in insertion order (keys are unique by
     construction: NewIndex and ReadFrom reject duplicates). *)
 From Hts Require Import Base.Prim Generated.
@@ -142,8 +142,33 @@ Fixpoint ni_fold (adv : bool) (s : nstate) (ls : list (list Z)) : outcome nstate
 Definition ni_finish (s : nstate) : list frec :=
   if is_nil (r_name (n_cur s)) then n_idx s else map_set (n_idx s) (n_cur s).
 
+(** bufio.Scanner gives up (ErrTooLong) on a token that does not fit its
+    buffer of MaxScanTokenSize bytes: a line with its terminator may have at
+    most 65536 bytes, an unterminated last line at most 65535 (the Scanner
+    has to see the end of the input before it delivers it; io.Reader that
+    reports io.EOF on a separate call, as bytes.Reader and os.File do).  The
+    tokens before the long one are delivered and processed normally. *)
+Definition MaxScanTokenSize := 65536.
+Definition E_TOOLONG := 5.
+
+Definition ends_lf (l : list Z) : bool := match l with [] => false | _ => last l 0 =? 10 end.
+Definition token_fits (l : list Z) : bool :=
+  (zlen l <=? MaxScanTokenSize) && (ends_lf l || (zlen l <? MaxScanTokenSize)).
+
+Fixpoint scan_tokens (ls : list (list Z)) : list (list Z) * bool :=
+  match ls with
+  | [] => ([], false)
+  | l :: t => if token_fits l then let '(a, b) := scan_tokens t in (l :: a, b) else ([], true)
+  end.
+
+Definition lines_fit (file : list Z) : bool := forallb token_fits (lines file).
+
+(** NewIndex: the scan loop over the delivered tokens (an error exit of the
+    loop wins), then `return idx, sc.Err()`: a non-nil error is an error of
+    NewIndex (the partial index returned with it is not an observation). *)
 Definition newindex_gen (adv : bool) (file : list Z) : outcome (list frec) :=
-  obind (ni_fold adv nstate0 (lines file)) (fun s => Ok (ni_finish s)).
+  let '(toks, toolong) := scan_tokens (lines file) in
+  obind (ni_fold adv nstate0 toks) (fun s => if toolong then Err E_TOOLONG else Ok (ni_finish s)).
 
 (** NewIndex of the current source. *)
 Definition newindex (file : list Z) : outcome (list frec) :=
@@ -307,18 +332,13 @@ Fixpoint split_on (sep : Z) (l : list Z) : list (list Z) :=
                    end
   end.
 
-(** A csv record line: terminator (LF or CRLF) removed. *)
-Definition chomp (l : list Z) : list Z :=
+(** strings.TrimSuffix(strings.TrimSuffix(text, "\n"), "\r"). *)
+Definition strip_last (c : Z) (l : list Z) : list Z :=
   match rev l with
-  | c :: t =>
-    if c =? 10 then
-      match t with
-      | d :: t' => if d =? 13 then rev t' else rev t
-      | [] => rev t
-      end
-    else l
+  | x :: t => if x =? c then rev t else l
   | [] => l
   end.
+Definition chomp (l : list Z) : list Z := strip_last 13 (strip_last 10 l).
 
 Definition E_FIELDS := 1.
 Definition E_NONUNIQUE := 2.
@@ -345,7 +365,7 @@ Definition geometry_ok (r : frec) : bool :=
 
 Definition rf_line (idx : list frec) (line : list Z) : outcome (list frec) :=
   let body := chomp line in
-  if is_nil body then Ok idx                       (* csv skips empty lines *)
+  if is_nil body then Ok idx                       (* empty lines are skipped *)
   else match split_on 9 body with
        | [f0; f1; f2; f3; f4] =>
          if has_name f0 idx then Err E_NONUNIQUE
@@ -388,9 +408,15 @@ Definition render_header (r : srec) : list Z := 62 :: s_name r ++ s_desc r ++ te
 Definition render_body (nl : bool) (r : srec) : list Z :=
   concat (map (fun l => l ++ term (s_crlf r)) (s_full r)) ++ s_last r ++ (if nl then term (s_crlf r) else []).
 
-(** [nl]: whether the last sequence line is terminated. *)
+(** A record without sequence: no lines at all after the header. *)
+Definition is_empty (r : srec) : bool := is_nil (s_full r) && is_nil (s_last r).
+
+(** [nl]: whether the last line of the record (its last sequence line, or
+    its header when it has no sequence) is terminated. *)
 Definition render_rec (nl : bool) (r : srec) : list Z :=
-  render_header r ++ render_body nl r ++ blanks (s_blanks r).
+  if is_empty r then
+    (62 :: s_name r ++ s_desc r) ++ (if nl then term (s_crlf r) else []) ++ blanks (s_blanks r)
+  else render_header r ++ render_body nl r ++ blanks (s_blanks r).
 
 Fixpoint render_recs (fin : bool) (rs : list srec) : list Z :=
   match rs with
@@ -420,11 +446,14 @@ Definition desc_ok (d : list Z) : bool :=
 Definition first_line (r : srec) : list Z := match s_full r with l :: _ => l | [] => s_last r end.
 Definition width (r : srec) : Z := zlen (first_line r).
 
+Definition wf_body (r : srec) : bool :=
+  forallb (fun l => (zlen l =? width r) && forallb basech l) (s_full r)
+  && (1 <=? zlen (s_last r)) && (zlen (s_last r) <=? width r) && forallb basech (s_last r).
+
 Definition wf_rec (nl : bool) (r : srec) : bool :=
   negb (is_nil (s_name r)) && forallb namech (s_name r) && desc_ok (s_desc r)
-  && forallb (fun l => (zlen l =? width r) && forallb basech l) (s_full r)
-  && (1 <=? zlen (s_last r)) && (zlen (s_last r) <=? width r) && forallb basech (s_last r)
-  && (nl || is_nil (s_blanks r)).
+  && (nl || is_nil (s_blanks r))
+  && (is_empty r || wf_body r).
 
 Fixpoint wf_recs (fin : bool) (rs : list srec) : bool :=
   match rs with
@@ -448,6 +477,9 @@ Definition wf (f : fasta) : bool :=
     bytes of a line including its terminator). *)
 Definition tlen (r : srec) : Z := zlen (term (s_crlf r)).
 Definition entry (nl : bool) (off : Z) (r : srec) : frec :=
+  if is_empty r then
+    mkRec (s_name r) 0 (off + zlen (62 :: s_name r ++ s_desc r) + (if nl then tlen r else 0)) 0 0
+  else
   mkRec (s_name r) (zlen (bases r)) (off + zlen (render_header r)) (width r)
         (width r + match s_full r with _ :: _ => tlen r | [] => if nl then tlen r else 0 end).
 
@@ -571,3 +603,10 @@ Definition c19_agree (c : c19case) : bool :=
 (** ReadFrom on arbitrary TSV text. *)
 Record c19tsv := mkTsv { t_in : list Z; t_obs : obs_idx }.
 Definition c19_tsv_agree (c : c19tsv) : bool := idx_agree (readfrom (t_in c)) (t_obs c).
+
+(** NewIndex on a file with one long line of [l_n] bases 'A' between
+    [l_pre] and [l_post] (the file is built here: a literal of 64 KiB would
+    take minutes to parse). *)
+Record c19long := mkLong { l_pre : list Z; l_n : Z; l_post : list Z; l_obs : obs_idx }.
+Definition c19_long_agree (c : c19long) : bool :=
+  idx_agree (newindex (l_pre c ++ repeat 65 (Z.to_nat (l_n c)) ++ l_post c)) (l_obs c).
